@@ -60,11 +60,12 @@ class FakeCL(object):
     def __init__(self):
         self.sent = []      # (raw_config, bytes, t_ms)
         self.fail = False
+        self.fail_next = set()   # next-hop node IDs for which the hand-over to the CL raises
         self.serv_name = 'verif.fake'
 
     def send_bundle_func(self, raw_config):
         def sender(data):
-            if self.fail:
+            if self.fail or (raw_config or {}).get('next') in self.fail_next:
                 raise RuntimeError('scripted CL failure')
             self.sent.append((raw_config, bytes(data), simloop.CLOCK.now_ms))
         return sender
